@@ -15,6 +15,9 @@
 //@ fragment: WDB :: src/debugger/call/mod.rs :: impl Debugger / fn with_disabled_brkpts :: `BEGIN` .. `END`
 //@ harness: name=c16_with_disabled prop=C16,C02 unit=C16.with_disabled_brkpts mode=bounded bound="two active breakpoints" fn="Debugger::with_disabled_brkpts" timeout=900
 //@ assume: C16.with_disabled_brkpts: `self.breakpoints.active_breakpoints()` is replaced by a two-element recorder list (std HashMap values) and Breakpoint::enable/disable by flag recorders (the patch primitive itself is proved as C02.patch.*)
+//@ fragment: LITINT :: src/debugger/call/mod.rs :: fn liter_to_arg_bin_repr :: `let mut bytes = [0u8; 8];` .. `^(u64::from_le_bytes(bytes), RegType::General)`
+//@ harness: name=c16_lit_int prop=C16 unit=C16.lit_int mode=complete fn="liter_to_arg_bin_repr (integer literal -> register image, statement fragment)" timeout=600
+//@ assume: C16.lit_int: the two bail-out macros of liter_to_arg_bin_repr are replaced by `return Err(())`; the parameter type is reduced to (encoding, byte_size); oracle: an integer literal that FITS the parameter type is passed as the little-endian two's-complement image of the parameter's width in the low bytes of the register, upper bytes zero; literals that do not fit are truncated to the width (recorded behaviour of the code, not a claim of the property)
 //@ harness: name=c16_reg_for_no prop=C16 unit=C16.reg_for_no mode=complete fn="get_reg_for_no"
 //@ harness: name=c16_prepare prop=C16 unit=C16.prepare mode=complete fn="CallArgs::prepare_registers" timeout=600
 //@ notcovered: liter_to_arg_bin_repr (needs a populated ComplexType HashMap), mmap/munmap/jump sequencing through ptrace, exactly-once execution, error paths of with_ccx, vard/argd formatting, the CallCache
@@ -211,4 +214,51 @@ fn c16_with_disabled() {
     assert!(d.breakpoints.a.armed.get() && d.breakpoints.b.armed.get(), "C16.with_disabled_brkpts.E2 every breakpoint is armed again afterwards, also when the call was rejected");
     assert!(r.is_err() == reject, "C16.with_disabled_brkpts.E3 the outcome of the call is reported");
     core::mem::forget(r);
+}
+
+
+// ---- integer literal -> SysV integer-register image (statement fragment of liter_to_arg_bin_repr) -----------
+struct ScalarTy { byte_size: Option<u64> }
+macro_rules! unsup_arg_bail { ($($t:tt)*) => { return Err(()) }; }
+macro_rules! lit_cast_bail { ($($t:tt)*) => { return Err(()) }; }
+fn lit_int_image(val: &i64, encoding: gimli::DwAte, scalar_type: &ScalarTy) -> Result<u64, ()> {
+    let (no, to_type, root_type_id) = (0usize, (), ());
+    let _ = (no, to_type, root_type_id);
+    /*@@FRAGMENT:LITINT*/
+    Ok(u64::from_le_bytes(bytes))
+}
+
+#[kani::proof]
+fn c16_lit_int() {
+    let val: i64 = kani::any();
+    let size: u64 = kani::any();
+    let which: u8 = kani::any();
+    kani::assume(which < 4);
+    let (encoding, signed, char_like) = match which {
+        0 => (gimli::DW_ATE_signed, true, false),
+        1 => (gimli::DW_ATE_unsigned, false, false),
+        2 => (gimli::DW_ATE_signed_char, true, true),
+        _ => (gimli::DW_ATE_unsigned_char, false, true),
+    };
+    let ty = ScalarTy { byte_size: Some(size) };
+    let r = lit_int_image(&val, encoding, &ty);
+    let width = if char_like { 1 } else { size };
+    if !(width == 1 || width == 2 || width == 4 || width == 8) {
+        assert!(r.is_err(), "C16.lit_int.E1 an integer parameter of an unsupported width is refused, not guessed");
+        return;
+    }
+    let bits = width * 8;
+    let fits = if width == 8 { signed || val >= 0 } else if signed { val >= -(1i64 << (bits - 1)) && val < (1i64 << (bits - 1)) } else { val >= 0 && val < (1i64 << bits) };
+    match r {
+        Err(_) => panic!("C16.lit_int.E2 supported widths are accepted"),
+        Ok(img) => {
+            let mask: u64 = if width == 8 { u64::MAX } else { (1u64 << bits) - 1 };
+            assert!(img & !mask == 0, "C16.lit_int.E3 the bytes above the parameter's width are zero");
+            if fits {
+                assert!(img == (val as u64) & mask, "C16.lit_int.E4 a literal that fits is passed as its two's-complement image of the parameter's width");
+            }
+        }
+    }
+    kani::cover!(fits && width == 2 && val < 0, "negative 16-bit argument");
+    kani::cover!(!fits && width == 4, "literal wider than the parameter");
 }
